@@ -189,6 +189,17 @@ def check_complete(case, ctx: Ctx):
     if not inside:
         ctx.label("outside_by_construction")
         return
+    if d % clk and chobj.min_avg_amp:
+        # lengthening keeps the area of a Blackman/Kaiser/interpolated waveform: its
+        # average can fall below min_avg_amp - the two halves of the statement conflict
+        # (inside the limits vs only lengthened), acceptance is unspecified
+        try:
+            avg2 = float(np.mean(pulse.amplitude.change_duration(newd).samples.as_array()))
+        except Exception:  # noqa: BLE001
+            avg2 = avg
+        if 0 < avg2 < chobj.min_avg_amp:
+            ctx.label("lengthening_conflicts_with_min_avg_amp")
+            return
     ctx.nontrivial(case["at_limit"] or d % clk != 0)
     ctx.label("at_limit" if case["at_limit"] else "inside", "virtual" if case["virtual"] else "physical",
               "lengthened" if d % clk else "clock_multiple")
@@ -263,6 +274,47 @@ def check_durations(case, ctx: Ctx):
     ctx.nontrivial(True)
 
 
+# ------------------------------------------------------------------ max_sequence_duration boundary
+@st.composite
+def msd_cases(draw, tier):
+    prof = profile(tier)
+    prof = dict(prof, fault_pct=0, min_ops=4, max_ops=14, min_channels=2,
+                weights=dict(prof["weights"], add=16, declare_more=3, align=2, delay=2, target=3),
+                device=gen.device_specs(n_channels=(2, 3), allow_builtin=False, max_seq=[None],
+                                        chan_kw={"bandwidth": [None, None, 8]}))
+    return dict(prog=draw(gen.programs(prof)), pick=draw(st.integers(0, 50)), delta=draw(st.integers(0, 17)))
+
+
+def check_msd(case, ctx: Ctx):
+    """Two passes: (1) run the program without a device limit and record the sequence
+    duration after every call; (2) put max_sequence_duration 0..17 ns below the end of
+    one chosen call and re-run: the C01 oracle (sequence <= limit after every successful
+    call) is evaluated exactly on the boundary the first pass located."""
+    import copy
+
+    prog = copy.deepcopy(case["prog"])
+    prog["device"].pop("max_sequence_duration", None)
+    phys = prog["device"]["type"] == "physical"
+    if phys:
+        prog["device"]["max_sequence_duration"] = 10**7
+    it = build.Interp(prog)
+    ends = []
+    for op in prog["ops"]:
+        r, _ = it.apply(op)
+        ends.append(it.seq.get_duration() if it.seq._schedule else 0)
+    grow = [j for j in range(len(ends)) if ends[j] > (ends[j - 1] if j else 0)]
+    if not grow:
+        ctx.label("nothing_scheduled")
+        return
+    j = grow[case["pick"] % len(grow)]
+    prev = ends[j - 1] if j else 0
+    msd = max(ends[j] - case["delta"], prev, 1)
+    prog["device"]["max_sequence_duration"] = int(msd)
+    ctx.label("limit_cuts_call" if msd < ends[j] else "limit_equals_end", "op:" + prog["ops"][j]["op"])
+    ctx.nontrivial(msd < ends[j])
+    history.Walker(prog, ctx, {"C01"}).run()
+
+
 CLAUSES = [
     Clause("sound", check_sound, gen=lambda t: gen.programs(profile(t)),
            budget={"quick": (12, 150), "thorough": (16, 6000)},
@@ -270,6 +322,9 @@ CLAUSES = [
     Clause("complete", check_complete, gen=lambda t: inside_cases(),
            budget={"quick": (4, 400), "thorough": (16, 10000)},
            doc="a pulse inside every limit is accepted, unchanged or only lengthened"),
+    Clause("max_seq_boundary", check_msd, gen=lambda t: msd_cases(t),
+           budget={"quick": (8, 100), "thorough": (16, 4000)},
+           doc="max_sequence_duration placed 0..17 ns below the end of a chosen call (two-pass construction)"),
     Clause("durations", check_durations, enum=enum_duration_boxes,
            budget={"quick": (8, 0), "thorough": (16, 0)}, exhaustive=True,
            doc="Channel.validate_duration over duration x clock x min x max"),
